@@ -19,9 +19,12 @@ CHECKS = {
              "specification's own text model (Text.tla: lines of grapheme-cluster widths -> byte/line/column), file membership, 0<=start<=end<=len.",
         ref="DESIGN.md 5/C02", technique="TLA+ text model (Text.tla) + TLC trace validation of all emitted ranges"),
     "C06": dict(
-        text="Trace validation of every completion result of the session histories: edit range well-formed, starts at or before the cursor and reaches it "
-             "(only blanks between), same file, plain text without tab-stops, snippet stops consecutive and unique (StopsOK), at most 100 items.",
-        ref="DESIGN.md 5/C06", technique="TLC trace validation (Session.tla predicates EditOK/StopsOK) of recorded completions"),
+        text="(1) Trace validation of every completion result of the typing histories (Session.tla: EditOK - well-formed, starts at or before the cursor, reaches it up to blanks, "
+             "same file; StopsOK; no tab-stops in plain text; at most 100). (2) Snippet.tla transcribes every snippet producer; MC_Snippet checks StopsOK on the transcription for all "
+             "constraint trees (depth <= 3, all kinds, with/without prefill) and body schemas, a sensitivity config re-introduces the repaired numbering defect and must be rejected; the "
+             "cases are replayed on the real EmptyCompletionData / attribute / value / label / block completion and TraceSnip decides StopsOK on the real stops. (3) Population sweep "
+             "(0..250 candidates from attributes, blocks, label values, targets, functions, hooks): TraceSnip decides limit, completeness and hook rules.",
+        ref="DESIGN.md 5/C06", technique="TLC trace validation (Session.tla) + TLC model checking of Snippet.tla with replay of TLC-generated cases + TraceSnip (StopsOK, limit/completeness)"),
     "C12": dict(
         text="Trace validation of every hover result of the session histories: non-empty content and a well-formed range containing the cursor.",
         ref="DESIGN.md 5/C12", technique="TLC trace validation (Session.tla predicate HoverOK) of recorded hovers"),
